@@ -15,6 +15,7 @@ SUITES = {
     'bp': ['bp_types', 'bp_models', 'bp_blocks', 'bp_agent', 'bp_report', 'bp_fwd', 'bp_apps', 'bp_sec'],
     'udpcl': ['udpcl_types', 'udpcl_agent'],
     'btpu': ['btpu_types', 'btpu_agent'],
+    'tagent': ['tagent'],
 }
 
 
